@@ -913,6 +913,17 @@ func (w *windowTracker) admit(fam int64, metric string, series int, fieldName st
 	return true
 }
 
+// wouldAdmit is admit without recording.
+func (w *windowTracker) wouldAdmit(fam int64, metric string, series int, fieldName string, ts int64) bool {
+	key := fmt.Sprintf("%d/%s/%d/%s", fam, metric, series, fieldName)
+	slot := int((ts - fam) / w.S)
+	cur := w.win[key]
+	if cur == nil || slot < cur.start || slot > cur.start+writeWindow-1 || cur.marked[slot] {
+		return true
+	}
+	return slot >= cur.end
+}
+
 // flushed forgets the windows of a family (its memory database is gone).
 func (w *windowTracker) flushed(fam int64) {
 	prefix := fmt.Sprintf("%d/", fam)
@@ -1011,7 +1022,7 @@ func genQuery(t *rapid.T, sc schema, written map[string]map[string]bool) mQuery 
 			continue
 		}
 		it := selectItem{Field: fd.Name, Fn: fn}
-		if rapid.IntRange(0, 2).Draw(t, "alias") == 0 {
+		if rapid.IntRange(0, 2).Draw(t, "alias") == 0 || quoteIdent(fd.Name) != fd.Name {
 			it.Alias = fmt.Sprintf("x%d", i)
 		}
 		if names[it.resultName()] {
@@ -1211,7 +1222,11 @@ func describe(sc schema, ops []opSpec, upto int) string {
 		case "write":
 			fmt.Fprintf(&b, "  %2d write\n", i)
 			for _, r := range op.Rows {
-				fmt.Fprintf(&b, "       %s %v @%s (%d) %v\n", sc.Metrics[r.M].Name, sc.Metrics[r.M].Series[r.S], timeOf(r.TS).Format("2006-01-02 15:04:05.000"), r.TS, r.Vals)
+				fmt.Fprintf(&b, "       %s %v @%s (%d) %v", sc.Metrics[r.M].Name, sc.Metrics[r.M].Series[r.S], timeOf(r.TS).Format("2006-01-02 15:04:05.000"), r.TS, r.Vals)
+				if r.Hist != nil {
+					fmt.Fprintf(&b, " histogram %+v", *r.Hist)
+				}
+				b.WriteByte('\n')
 			}
 		case "flushFamily", "compact":
 			fmt.Fprintf(&b, "  %2d %s %s\n", i, op.Kind, fmtTime(sc.Fams[op.Fam]))
